@@ -42,15 +42,6 @@ func (C08) ID() string { return "C08" }
 
 // Knobs: input classes that hit defects known from reading the code.  They are off in
 // ordinary runs so the defects do not mask everything else; a knob run enables one.
-var c8Knobs = []string{
-	"k_existsid",   // call MailboxExistsWithID at all
-	"k_updremote",  // UpdateRemoteMessageID on a message that is in a mailbox
-	"k_noflags",    // Add(Perm)FlagsToAllMailboxes with an empty flag list
-	"k_quote",      // Add(Perm)FlagsToAllMailboxes with a flag containing '
-	"k_flagcase",   // message flags in varying letter case
-	"k_comma",      // a message flag containing a comma
-	"k_randmember", // MarkMessageAsDeletedAndAssignRandomRemoteID on a message that is still in a mailbox
-}
 
 // Boundary lengths for list arguments (db.ChunkLimit is 1000; some functions chunk at 500).
 var c8Bounds = []int{499, 500, 501, 999, 1000, 1001, 1999, 2000, 2001, 2500}
@@ -110,10 +101,15 @@ func c8SmallLen(r *core.Rand) int {
 func (C08) Generate(r *core.Rand, tier string, idx int) *core.Scenario {
 	c8Init()
 	sc := &core.Scenario{Property: "C08", Cfg: map[string]int{}}
-	knob := ""
+	// input classes whose defects were repaired: each in half of the runs
+	for _, k := range []string{"k_existsid", "k_updremote", "k_noflags", "k_quote", "k_randmember"} {
+		if r.P(1, 2) {
+			sc.Cfg[k] = 1
+		}
+	}
+	// input classes with an open finding: one of them in a quarter of the runs
 	if r.P(1, 4) {
-		knob = c8Knobs[r.Intn(len(c8Knobs))]
-		sc.Cfg[knob] = 1
+		sc.Cfg[[]string{"k_flagcase", "k_comma"}[r.Intn(2)]] = 1
 	}
 	bulk := r.P(1, 4)
 	if bulk {
@@ -123,12 +119,12 @@ func (C08) Generate(r *core.Rand, tier string, idx int) *core.Scenario {
 	enabled := func(name string) bool {
 		switch name {
 		case "MailboxExistsWithID":
-			return knob == "k_existsid"
+			return sc.Cfg["k_existsid"] == 1
 		}
 		return true
 	}
 	pick := func(names []string) string {
-		if knob == "k_existsid" && r.P(1, 5) {
+		if sc.Cfg["k_existsid"] == 1 && r.P(1, 5) {
 			return "MailboxExistsWithID"
 		}
 		for {
